@@ -33,6 +33,7 @@ type c04world struct {
 	node *vNode
 
 	keys, meta, seed, group, cred, alias vIDs
+	getters                              string // disagreement between getters seen by the last observe
 	pub                           map[uint64]crypto.PubKey
 	groupPK                       map[uint64][]byte
 }
@@ -200,7 +201,140 @@ func (w *c04world) observe(ms *MetadataStore, q c04queries) string {
 	for _, c := range ms.ListVerifiedCredentials() {
 		creds = append(creds, vharness.N(w.cred.id(c.Identifier)))
 	}
+	w.getters = w.getterIssue(ms, q, contacts, enabled)
 	return fmt.Sprintf("(mkObs %s %v %d %s %s %s %s %s)", vharness.List(cs), enabled, seed, vharness.List(gs), vharness.List(ds), vharness.List(ss), vharness.List(as), vharness.List(creds))
+}
+
+// getterIssue: the other getters of MetadataStore must tell the same story as the ones the model
+// is compared with (GetMemberByDevice, ListContacts, the index fields): ListDevices, ListMembers,
+// GetDevicesForMember, ListOtherMembersDevices, ListAdmins of account/contact groups,
+// ListMultiMemberGroups, GetIncomingContactRequestsStatus, ListContactsByStatus.
+func (w *c04world) getterIssue(ms *MetadataStore, q c04queries, contacts map[string]*AccountContact, enabled bool) string {
+	idx := ms.Index().(*metadataStoreIndex)
+	set := func(pks []crypto.PubKey) (map[uint64]int, string) {
+		m := map[uint64]int{}
+		for _, pk := range pks {
+			raw, _ := pk.Raw()
+			m[w.keyID(raw)]++
+		}
+		var ids []uint64
+		for id := range m {
+			ids = append(ids, id)
+		}
+		return m, fmt.Sprint(vSortedU64(ids))
+	}
+	byDev := map[uint64]uint64{} // device -> member
+	members := map[uint64]bool{}
+	for _, id := range q.devs {
+		if pk, err := ms.GetMemberByDevice(w.pub[id]); err == nil && pk != nil {
+			raw, _ := pk.Raw()
+			byDev[id] = w.keyID(raw)
+			members[w.keyID(raw)] = true
+		}
+	}
+	devs, devsTxt := set(ms.ListDevices())
+	for d, n := range devs {
+		if _, ok := byDev[d]; !ok || n != 1 {
+			return fmt.Sprintf("ListDevices lists %s, device %d is listed %d time(s) and GetMemberByDevice knows it: %v", devsTxt, d, n, ok)
+		}
+	}
+	if len(devs) != len(byDev) {
+		return fmt.Sprintf("ListDevices lists %d devices (%s), GetMemberByDevice knows %d", len(devs), devsTxt, len(byDev))
+	}
+	mems, memsTxt := set(ms.ListMembers())
+	for m, n := range mems {
+		if !members[m] || n != 1 {
+			return fmt.Sprintf("ListMembers lists %s, member %d listed %d time(s), has a device: %v", memsTxt, m, n, members[m])
+		}
+	}
+	if len(mems) != len(members) {
+		return fmt.Sprintf("ListMembers lists %d members (%s), the devices belong to %d", len(mems), memsTxt, len(members))
+	}
+	ownMember := uint64(0)
+	if raw, err := ms.memberDevice.Member().Raw(); err == nil {
+		ownMember = w.keyID(raw)
+	}
+	others := 0
+	for m := range members {
+		got, err := ms.GetDevicesForMember(w.pub[m])
+		if err != nil {
+			return fmt.Sprintf("GetDevicesForMember(%d) fails: %v", m, err)
+		}
+		gs, gtxt := set(got)
+		want := 0
+		for d, mm := range byDev {
+			if mm == m {
+				want++
+				if gs[d] != 1 {
+					return fmt.Sprintf("GetDevicesForMember(%d) = %s lacks (or repeats) device %d", m, gtxt, d)
+				}
+			}
+		}
+		if len(gs) != want {
+			return fmt.Sprintf("GetDevicesForMember(%d) = %s, %d devices expected", m, gtxt, want)
+		}
+		if m != ownMember {
+			others += want
+		}
+	}
+	if od, odTxt := set(ms.ListOtherMembersDevices()); len(od) != others {
+		return fmt.Sprintf("ListOtherMembersDevices = %s, %d devices of other members expected", odTxt, others)
+	} else {
+		for d := range od {
+			if byDev[d] == ownMember {
+				return fmt.Sprintf("ListOtherMembersDevices lists device %d of the own member", d)
+			}
+		}
+	}
+	if ms.typeChecker(isAccountGroup, isContactGroup) {
+		if ad, adTxt := set(ms.ListAdmins()); fmt.Sprint(adTxt) != memsTxt || len(ad) != len(mems) {
+			return fmt.Sprintf("ListAdmins of an account/contact group = %s, members = %s", adTxt, memsTxt)
+		}
+	}
+	if ms.typeChecker(isAccountGroup) {
+		joined := map[string]bool{}
+		idx.lock.RLock()
+		for k, g := range idx.groups {
+			if g.state == accountGroupJoinedStateJoined {
+				joined[k] = true
+			}
+		}
+		idx.lock.RUnlock()
+		l := ms.ListMultiMemberGroups()
+		seen := map[string]bool{}
+		for _, g := range l {
+			if !joined[string(g.PublicKey)] || seen[string(g.PublicKey)] {
+				return "ListMultiMemberGroups lists a group that is not joined, or twice"
+			}
+			seen[string(g.PublicKey)] = true
+		}
+		if len(l) != len(joined) {
+			return fmt.Sprintf("ListMultiMemberGroups lists %d groups, %d are joined", len(l), len(joined))
+		}
+		en, ref := ms.GetIncomingContactRequestsStatus()
+		if en != enabled || ref == nil || !bytes.Equal(ref.PublicRendezvousSeed, idx.contactRequestsSeed()) {
+			return "GetIncomingContactRequestsStatus differs from the switch and seed of the index"
+		}
+		if raw, err := ms.memberDevice.Member().Raw(); err == nil && !bytes.Equal(ref.Pk, raw) {
+			return "GetIncomingContactRequestsStatus names another account key"
+		}
+		all := []protocoltypes.ContactState{protocoltypes.ContactState_ContactStateUndefined, protocoltypes.ContactState_ContactStateToRequest, protocoltypes.ContactState_ContactStateReceived,
+			protocoltypes.ContactState_ContactStateAdded, protocoltypes.ContactState_ContactStateRemoved, protocoltypes.ContactState_ContactStateDiscarded, protocoltypes.ContactState_ContactStateBlocked}
+		total := 0
+		for _, st := range all {
+			for _, c := range ms.ListContactsByStatus(st) {
+				total++
+				ac, ok := contacts[string(c.Pk)]
+				if !ok || ac.state != st {
+					return fmt.Sprintf("ListContactsByStatus(%v) lists a contact that ListContacts does not have in that state", st)
+				}
+			}
+		}
+		if total != len(contacts) {
+			return fmt.Sprintf("ListContactsByStatus over all states lists %d contacts, ListContacts %d", total, len(contacts))
+		}
+	}
+	return ""
 }
 
 // a writing device: its replica, its store, and the successive contents of its log
@@ -570,6 +704,9 @@ func (w *c04world) runPlan(out *vharness.Out, kind string, h *c04history, like *
 		}
 		obs := w.observe(ms, q)
 		ok, note := true, ""
+		if w.getters != "" {
+			ok, note = false, fmt.Sprintf("history %v, %s: %s", h.desc, planDesc, w.getters)
+		}
 		if h.contact {
 			sent, other, txt := w.aliasObs(ms)
 			obs += " | " + txt
@@ -591,6 +728,9 @@ func (w *c04world) runPlan(out *vharness.Out, kind string, h *c04history, like *
 			note = fmt.Sprintf("history %v: a replica that received the same entries (%s) reports a different state than the replica that got them in one batch: %s", h.desc, planDesc, c04firstDiff(want, obs))
 		}
 		sig := "replicas holding the same entries report different group state"
+		if w.getters != "" {
+			sig = "getters of the metadata store disagree"
+		}
 		if ok {
 			seenAdmin := map[string]bool{}
 			for _, a := range ms.Index().(*metadataStoreIndex).listAdmins() {
@@ -686,6 +826,10 @@ func (w *c04world) explore(out *vharness.Out, kind string, rng *rand.Rand, h *c0
 	// the writers themselves: every UpdateIndex they went through
 	for _, d := range h.devs {
 		obs := w.observe(d.ms, q)
+		if w.getters != "" {
+			out.Emit(vharness.Case{Kind: kind + "-writer", Key: fmt.Sprintf("%v|writer %d getters", h.desc, d.own), OracleOK: false,
+				Note: fmt.Sprintf("history %v, writer %d: %s", h.desc, d.own, w.getters), Sig: "getters of the metadata store disagree"})
+		}
 		out.Emit(vharness.Case{
 			Kind: kind + "-writer",
 			Coq:  fmt.Sprintf("CIdx %d %s %s %s %s %s %s", d.own, w.logsCoq(d.snaps, ranks, ev), vharness.Ns(q.pks), vharness.Ns(q.groups), vharness.Ns(q.devs), vharness.Ns(q.members), obs),
